@@ -1,4 +1,5 @@
 import J5V.Schema.PropSet
+import J5V.Schema.EnvModel
 import J5V.Codec.DecodeProofs
 /-!
 # C18 → codec: the reflected schema as the codec model's `Env`
@@ -15,105 +16,12 @@ is the hypothesis of the codec cluster's no-panic theorems (C06). So for reflect
 hypothesis holds by construction (before 98dc738 it did not: `repeated google.protobuf.Struct` was
 reflected as an array of maps).
 
-Not validated by a stream: `toEnv` itself (the codec harness dumps the env from the real
-j5schema structs; the presence class / oneof group come from the descriptor there). `itemsOk`
-only depends on the field shapes, which are the reader model's, validated by `schema.reflect`.
+`toEnv` itself (definitions in `EnvModel.lean`) is validated per root def by the `env=` part of
+the `schema.reflect` result (Go side: `envdump.go`, the codec harness's prop / field / presence dump
+over the real j5schema structs and descriptors).
 -/
 namespace J5V.Schema.Bridge
 open J5V.Go J5V.Schema J5V.Schema.Reader J5V.Json
-
-def rootName (p k : String) : String := p ++ "." ++ k
-
-def scalarKind (tag : STag) (fmt : Nat) : Codec.ScalarKind :=
-  match tag with
-  | .string => .string
-  | .key => .key
-  | .bool => .bool
-  | .bytes => .bytes
-  | .timestamp => .timestamp
-  | .date => .date
-  | .decimal => .decimal
-  | .integer => if fmt == 1 then .int32 else if fmt == 2 then .int64 else if fmt == 3 then .uint32 else .uint64
-  | .float => if fmt == 1 then .float32 else .float64
-
-/-- `pb`: the final field's message is `google.protobuf.Any` (as opposed to `j5.types.any.v1.Any`) -/
-def toField (pb : Bool) : RField → Codec.Field
-  | .scalar tag fmt _ _ => .scalar (scalarKind tag fmt)
-  | .any => .any pb
-  | .enum ref => .enum (rootName ref.pkg ref.schema)
-  | .object ref _ => .object (rootName ref.pkg ref.schema)
-  | .oneof ref => .oneof (rootName ref.pkg ref.schema)
-  | .array i => .array (toField pb i)
-  | .map i => .map (toField pb i)
-
-/-- the walk of `resolvePath`, also returning the message that contains the final field -/
-def resolveIn (ds : DescSet) (m : Msg) : List Int → Option (Msg × FieldD)
-  | [] => none
-  | [n] => (m.fields.find? fun f => f.number == n).map fun f => (m, f)
-  | n :: rest =>
-    match m.fields.find? fun f => f.number == n with
-    | none => none
-    | some f =>
-      if f.kind != .message then none
-      else
-        match ds.msg? (targetFull f.target) with
-        | some m' => resolveIn ds m' rest
-        | none => none
-
-/-- the field is a member of a real (non-synthetic) proto oneof of its message: its index -/
-def realOneof (m : Msg) (f : FieldD) : Option Nat :=
-  if f.oneofIdx < 0 then none
-  else
-    match m.oneofs[f.oneofIdx.toNat]? with
-    | some o => if o.synthetic then none else some f.oneofIdx.toNat
-    | none => none
-
-/-- how `protoreflect.Message.Has` behaves on the field -/
-def presOf (m : Msg) (f : FieldD) : Codec.Pres :=
-  match f.card with
-  | .list => .list
-  | .map => .map
-  | .single =>
-    if f.kind == .message then .msg
-    else if f.optionalKw || (realOneof m f).isSome then .opt
-    else .imp
-
-def toProp (ds : DescSet) (m : Msg) (p : RProp) : Codec.PropDef :=
-  match resolveIn ds m p.path with
-  | some (mc, g) =>
-    { jsonName := ascii p.json, path := p.path.map Int.toNat, pres := presOf mc g,
-      field := toField (targetFull (itemTarget g) == "google.protobuf.Any") p.schema,
-      group := realOneof mc g }
-  | none =>
-    -- the wrapper of an exposed oneof (empty path)
-    { jsonName := ascii p.json, path := p.path.map Int.toNat, pres := .none,
-      field := toField false p.schema }
-
-/-- the message whose fields the props of the entry registered for `src` are relative to: the
-message itself, or (exposed oneof) the message that declares the oneof -/
-def ownerMsg (ds : DescSet) (src : String) : Option Msg :=
-  ds.msgs.find? fun m => m.full == src || m.oneofs.any fun o => m.full ++ "." ++ o.name == src
-
-def entryRoot (ds : DescSet) (reg : Reg) (e : REntry) : Codec.Root :=
-  match e.to with
-  | some (.object _ _ _ _ ps) =>
-    match ds.msg? e.src with
-    | some m =>
-      match clientProps reg [⟨e.pkg, e.key⟩] ps with
-      | .ok cps => .object (cps.map (toProp ds m))
-      | _ => .noschema
-    | none => .noschema
-  | some (.oneof _ _ ps) =>
-    match ownerMsg ds e.src with
-    | some m => .oneof (ps.map (toProp ds m))
-    | none => .noschema
-  | some (.enum _ _ pfx opts) => .enum (ascii pfx) (opts.map fun (n, i) => (ascii n, i))
-  | none => .noschema
-
-/-- the reflected registry as the codec model's environment -/
-def toEnv (ds : DescSet) (reg : Reg) : Codec.Env :=
-  { defs := reg.map fun e => (rootName e.pkg e.key, entryRoot ds reg e),
-    res := ds.msgs.map fun m => (ascii m.full, rootName m.pkg m.split) }
 
 /-! ## array / map items are never arrays or maps -/
 
